@@ -511,6 +511,7 @@ func validatorCoverage(c *Ctx) {
 	sort.Strings(want)
 	// checked(block, base): paths validated by statements of this block
 	got := map[string]bool{}
+	depth := 0
 	var scanBlock func(list []ast.Stmt, prefix string, baseObj types.Object)
 	scanBlock = func(list []ast.Stmt, prefix string, baseObj types.Object) {
 		for i, stm := range list {
@@ -520,25 +521,59 @@ func validatorCoverage(c *Ctx) {
 				if sel, ok := ast.Unparen(v.X).(*ast.SelectorExpr); ok && identObj(info, sel.X) == arObj && v.Value != nil && prefix == "" {
 					scanBlock(v.Body.List, sel.Sel.Name+".", identObj(info, v.Value))
 				}
-			case *ast.AssignStmt:
-				if len(v.Rhs) != 1 || len(v.Lhs) != 1 {
+			case *ast.AssignStmt, *ast.IfStmt:
+				// err := check(x); if err != nil { return err }   or   if err := check(x); err != nil { return err }
+				var call *ast.CallExpr
+				var errObj types.Object
+				var guard *ast.IfStmt
+				if as, isAs := v.(*ast.AssignStmt); isAs {
+					if len(as.Rhs) != 1 || len(as.Lhs) != 1 {
+						continue
+					}
+					call, _ = ast.Unparen(as.Rhs[0]).(*ast.CallExpr)
+					errObj = identObj(info, as.Lhs[0])
+					if i+1 < len(list) {
+						if is, ok := list[i+1].(*ast.IfStmt); ok && is.Init == nil {
+							guard = is
+						}
+					}
+				} else {
+					is := v.(*ast.IfStmt)
+					if as, ok := is.Init.(*ast.AssignStmt); ok && len(as.Rhs) == 1 && len(as.Lhs) == 1 {
+						call, _ = ast.Unparen(as.Rhs[0]).(*ast.CallExpr)
+						errObj = identObj(info, as.Lhs[0])
+						guard = is
+					}
+				}
+				if call == nil || guard == nil || errObj == nil {
 					continue
 				}
-				call, ok := ast.Unparen(v.Rhs[0]).(*ast.CallExpr)
-				if !ok || calleeKey(info, call) != "validate.maybeNilDigest" || len(call.Args) != 1 {
+				// the guard: if err != nil { ...; return <non-nil> }
+				checked := false
+				if be, ok := ast.Unparen(guard.Cond).(*ast.BinaryExpr); ok && be.Op == token.NEQ && identObj(info, be.X) == errObj && isNilIdent(info, be.Y) && len(guard.Body.List) > 0 {
+					if ret, ok := guard.Body.List[len(guard.Body.List)-1].(*ast.ReturnStmt); ok && len(ret.Results) == 1 && !isNilIdent(info, ret.Results[0]) {
+						checked = true
+					}
+				}
+				if !checked {
 					continue
 				}
-				sel, ok := ast.Unparen(call.Args[0]).(*ast.SelectorExpr)
-				if !ok || identObj(info, sel.X) != baseObj {
-					continue
-				}
-				// next statement: if err != nil { return <non-nil> }
-				errObj := identObj(info, v.Lhs[0])
-				if i+1 < len(list) {
-					if is, ok := list[i+1].(*ast.IfStmt); ok && is.Init == nil {
-						if be, ok := ast.Unparen(is.Cond).(*ast.BinaryExpr); ok && be.Op == token.NEQ && identObj(info, be.X) == errObj && isNilIdent(info, be.Y) && len(is.Body.List) > 0 {
-							if ret, ok := is.Body.List[len(is.Body.List)-1].(*ast.ReturnStmt); ok && len(ret.Results) == 1 && !isNilIdent(info, ret.Results[0]) {
-								got[prefix+sel.Sel.Name] = true
+				switch k := calleeKey(info, call); {
+				case k == "validate.maybeNilDigest" && len(call.Args) == 1:
+					if sel, ok := ast.Unparen(call.Args[0]).(*ast.SelectorExpr); ok && identObj(info, sel.X) == baseObj {
+						got[prefix+sel.Sel.Name] = true
+					}
+				default:
+					// a helper of the package that validates the same message (element): its own
+					// top-level checks count for the argument it is given
+					if h := c.P.Func(k); h != nil && h.Pkg == fi.Pkg && !ast.IsExported(h.Decl.Name.Name) && h.Decl.Body != nil && depth < 3 {
+						for ai, a := range call.Args {
+							if identObj(info, a) == baseObj && baseObj != nil {
+								if po := paramObj(h, ai); po != nil {
+									depth++
+									scanBlock(h.Decl.Body.List, prefix, po)
+									depth--
+								}
 							}
 						}
 					}
